@@ -24,7 +24,8 @@ WORKERS = 14
 CASE_TIMEOUT = 420
 QUIESCENCE_SCOPE = "process"   # helpers are polling feeders only
 QUIESCENCE_AFTER = 25.0
-REQUIRED_OBS = ["streams", "epoch_checks", "periodicity_checks", "rust_epoch_permutations", "interleaved_stream_pairs"]
+REQUIRED_OBS = ["streams", "epoch_checks", "periodicity_checks", "rust_epoch_permutations", "interleaved_stream_pairs",
+                "reiterated_repeating_pipelines", "streams_with_in_place_consumer"]
 RULE = ("datasets (all formats, 1..many shards, nested lists) x interface x shuffle {0, small, >N} x "
         "file_parallelism {1,2,S,S+1,2S+3, 16} x epochs m in {2,3,5}. Distinct = (format, interface, shuffle class, "
         "parallelism vs shards class, m); every stream is non-trivial (m>=2).")
@@ -37,6 +38,24 @@ def gen_cases(tier: str, seed: int) -> list[dict]:
     n = 70 if tier == "quick" else 1000
     return [{"hist": _iter.gen_dataset_history(rng, formats=["fb", "fb", "npz", "tfrec"] if k % 2 else None),
              "pseed": rng.randrange(1 << 30), "streams": 6 if tier == "quick" else 10} for k in range(n)]
+
+
+def read_mutating(dataset, iface: str, split: str, limit: int, **kwargs):
+    """Take `limit` elements of a repeating stream; each example is checked and then overwritten in place."""
+    import numpy as np
+    iterator, closer = readers.open_stream(dataset, iface, split, repeat=True, **kwargs)
+    ids, problems = [], []
+    try:
+        for example in itertools.islice(iterator, limit):
+            got, bad = dsmod.ids_of([example])
+            ids += got
+            problems += bad
+            for value in example.values():
+                if isinstance(value, np.ndarray) and value.flags.writeable and value.dtype.kind in "iuf":
+                    value[...] = 0
+    finally:
+        closer()
+    return ids, problems[:6]
 
 
 def run_case(case: dict) -> dict:
@@ -72,12 +91,20 @@ def run_case(case: dict) -> dict:
             m = rng.choice([2, 3, 5])
             kwargs = {"file_parallelism": par} if "file_parallelism" in readers.ACCEPTS[iface] else {}
             label = f"{fmt}/{comp or 'none'} {iface} split={split} N={n} shards={n_shards} shuffle={shuffle} par={par} m={m}"
+            mutating = iface != "tfds" and rng.random() < 0.3
             try:
-                examples = readers.read(dataset, iface, split, shuffle=shuffle, repeat=True, limit=m * n, **kwargs)
+                if mutating:
+                    # a consumer that post-processes every example IN PLACE (normalisation, augmentation): what it does
+                    # to the arrays it was handed must never show up in a later epoch
+                    label += " in-place-consumer"
+                    ids, problems = read_mutating(dataset, iface, split, m * n, shuffle=shuffle, **kwargs)
+                    obs["streams_with_in_place_consumer"] += 1
+                else:
+                    ids, problems = dsmod.ids_of(readers.read(dataset, iface, split, shuffle=shuffle, repeat=True,
+                                                              limit=m * n, **kwargs))
             except Exception as exc:  # pylint: disable=broad-exception-caught
                 violations.append({"key": f"stream-raised/{iface}", "msg": f"{label}: {type(exc).__name__}: {str(exc)[:200]}"})
                 continue
-            ids, problems = dsmod.ids_of(examples)
             obs["streams"] += 1
             obs["elements_checked"] += len(ids)
             sigs.append([fmt, iface, "s0" if shuffle == 0 else "s<N" if shuffle < n else "s>=N",
@@ -118,6 +145,29 @@ def run_case(case: dict) -> dict:
                                    "msg": f"{label}: over {m} epochs ids were yielded between "
                                           f"{min(counts.get(i, 0) for i in ref)} and {max(counts.values())} times"})
             del slack
+        # ---- the tf.data pipeline object returned for a repeating stream is iterated, abandoned mid-epoch and
+        #      iterated again (fit, then evaluate): every iteration is the periodic stream from its start
+        if "tfds" in ifaces:
+            split = rng.choice(splits)
+            ref = reference(split)
+            par = rng.choice([1, 2, 3])
+            label = f"{fmt} as_tfdataset split={split} N={len(ref)} shuffle=0 repeat=True file_parallelism={par}"
+            try:
+                pipeline = dataset.as_tfdataset(split, batch_size=0, shuffle=0, repeat=True, file_parallelism=par)
+                for round_no, count in enumerate((len(ref) + len(ref) // 2 + 1, 2 * len(ref) + 1, 1)):
+                    iterator = iter(pipeline.as_numpy_iterator())
+                    got = [int(ex["id"]) for ex in itertools.islice(iterator, count)]
+                    del iterator
+                    obs["reiterated_repeating_pipelines"] += 1
+                    expected = list(itertools.islice(itertools.cycle(ref), count))
+                    if got != expected:
+                        first = next((i for i, (a, b) in enumerate(zip(got, expected)) if a != b), min(len(got), len(expected)))
+                        violations.append({"key": "reiterated-pipeline-not-periodic-from-start/tfds",
+                                           "msg": f"{label}: iteration {round_no + 1} of the same pipeline object deviates at "
+                                                  f"position {first}: {got[first:first + 4]} vs {expected[first:first + 4]} "
+                                                  f"({len(got)} of {count} elements)"})
+            except Exception as exc:  # pylint: disable=broad-exception-caught
+                violations.append({"key": "stream-raised/tfds", "msg": f"{label} re-iterated: {type(exc).__name__}: {str(exc)[:200]}"})
         # ---- two repeating iterators alive at once, consumed alternately across epoch boundaries
         for iface in rng.sample(ifaces, min(2, len(ifaces))):
             if iface == "conc" and fmt == "tfrec":
